@@ -503,8 +503,8 @@ pub const AIDX_FIXTURES: [&str; 3] = [
     "aidx:fixture:s2_00872b40344ef1a3dac4aff09588603c.index",
 ];
 pub const LRU_ALL: [&str; 4] = ["lru:1:1", "lru:4:3", "lru:16:16", "lru:6:0"];
-pub const UPD_ALL: [&str; 2] = ["upd:5", "upd:30"];
-pub const IDX_ALL: [&str; 2] = ["idx:6:5", "idx:0:3"];
+pub const UPD_ALL: [&str; 4] = ["upd:5", "upd:30", "upd:190", "upd:400"];
+pub const IDX_ALL: [&str; 3] = ["idx:6:5", "idx:0:3", "idx:4:185"];
 
 pub fn all_names() -> Vec<&'static str> {
     let mut v = vec![ENC_BUILT];
